@@ -12,7 +12,8 @@ def one(sid):
     pid = meta["property"]
     res = {}
     for seed in (0, 1):
-        r = subprocess.run(f"VERIF_SEED={seed} tools/with_patched_repo -p {d}/patch.diff -- ./check {pid} --workers 2", shell=True,
+        tier = meta.get("tier", "quick")
+        r = subprocess.run(f"VERIF_SEED={seed} tools/with_patched_repo -p {d}/patch.diff -- ./check {pid} --tier {tier} --workers 2", shell=True,
                            cwd=V, capture_output=True, text=True)
         line = [l for l in r.stdout.splitlines() if l.startswith("VIOLATION")]
         res[f"{pid}/seed{seed}"] = {"exit": r.returncode, "violation": (line[0] if line else None)}
